@@ -86,6 +86,27 @@ RECURSIVE PathRun(_)
 PathRun(st)       == IF PathDone(st) THEN st.x ELSE PathRun(PathStep(st))
 Derive(x, path)   == PathRun(PathInit(x, path))          \* path derivation = fold of the steps
 
+(* ---- every node along a path below a PRIVATE extended key, multiplying once per node ---- *)
+(* x : Ok(xprv) | Fail   K : its public point   q : CKDpub(parent K, parent chain code, i) (Fail at the start) *)
+Node(x, q) == [x |-> x, K |-> IF x.ok THEN PubOf(x.v.key) ELSE Inf, q |-> q]
+RECURSIVE NodesAcc(_, _)
+NodesAcc(acc, path) ==
+    IF path = <<>> THEN acc
+    ELSE LET par == acc[Len(acc)]
+             i   == Head(path)
+         IN NodesAcc(Append(acc, IF par.x.ok
+                                 THEN Node(ChildP(par.x.v, par.K, i), CKDpub(par.K, par.x.v.cc, i))
+                                 ELSE Node(Fail, Fail)),
+                     Tail(path))
+PathNodes(x0, path) == NodesAcc(<<Node(x0, Fail)>>, path)        \* x0 : Ok(xprv) | Fail; result has Len(path) + 1 nodes
+(* the same below a PUBLIC extended key: sequence of Ok(xpub) | Fail *)
+RECURSIVE PubAcc(_, _)
+PubAcc(acc, path) ==
+    IF path = <<>> THEN acc
+    ELSE LET par == acc[Len(acc)] IN
+         PubAcc(Append(acc, IF par.ok THEN ChildP(par.v, par.v.key, Head(path)) ELSE Fail), Tail(path))
+PubPathNodes(xpub, path) == PubAcc(<<Ok(xpub)>>, path)
+
 (* ---- serialisation: 4 version | 1 depth | 4 fingerprint | 4 child number | 32 chain code | 33 key ---- *)
 Version(x) == IF x.net = "main" THEN (IF x.prv THEN VerMainPrv ELSE VerMainPub)
                                 ELSE (IF x.prv THEN VerTestPrv ELSE VerTestPub)
